@@ -69,7 +69,31 @@ def run(chk):
     chk.assume("the SharedBrotliDecoder implementation is a black box that returns Ok or Err; FFI in c_brotli.rs is trusted")
 
 
+def _resolve_appliers(facts):
+    """The crate-private appliers are found from the public entry points, not by name: the table-keyed applier is the one
+    function of the table_keyed module that FontRef::apply_table_keyed_patch calls, the glyph-keyed applier likewise, and the
+    per-table routine is the table_keyed function the applier calls that itself calls the decoder."""
+    global TK_APPLY, TK_TABLE, GK_APPLY
+    ftk, fgk = facts.body(FTK), facts.body(FGK)
+    if ftk is None or fgk is None:
+        return
+    tk = sorted({t.callee for _, t in ftk.calls() if t.callee.startswith(IFT + "::table_keyed::")})
+    gk = sorted({t.callee for _, t in fgk.calls() if t.callee.startswith(IFT + "::glyph_keyed::")})
+    if len(tk) == 1:
+        TK_APPLY = tk[0]
+    if len(gk) == 1:
+        GK_APPLY = gk[0]
+    ab = facts.body(TK_APPLY, _fuzzy=False)
+    if ab is not None:
+        inner = sorted({t.callee for _, t in ab.calls() if t.callee.startswith(IFT + "::table_keyed::") and t.callee != TK_APPLY
+                        and facts.body(t.callee, _fuzzy=False) is not None
+                        and any(t2.callee == DECODE for _, t2 in facts.body(t.callee, _fuzzy=False).calls())})
+        if len(inner) == 1:
+            TK_TABLE = inner[0]
+
+
 def run_config(chk, facts):
+    _resolve_appliers(facts)
     chk.rule("C18-a", "T-GUARD/T-WHO: compatibility-id comparisons dominate every entry into the appliers; the appliers "
                       "and the decoder have no other callers")
     ftk = chk.anchor("C18-a", FTK, facts.body(FTK))
@@ -224,7 +248,7 @@ def run_config(chk, facts):
     chk.rule("C18-e", "T-GUARD: in the glyph-keyed applier a tag is recorded in the processed-table set only after, on the same "
                       "path, a call that received the new font's builder by `&mut` (the rebuilt table was added): every table "
                       "that is not rebuilt is later copied unchanged by copy_unprocessed_tables")
-    gk = chk.anchor("C18-e", "glyph_keyed::apply_glyph_keyed_patches", facts.body("incremental_font_transfer::glyph_keyed::apply_glyph_keyed_patches"))
+    gk = chk.anchor("C18-e", "glyph_keyed::apply_glyph_keyed_patches", facts.body(GK_APPLY))
     builders = [bb for bb, t in gk.calls()
                 if any(aty.replace(" ", "").startswith("&mutwrite_fonts::font_builder::FontBuilder") for aty in (t.d.get("atys") or []))
                 and not t.callee.endswith("copy_unprocessed_tables")]
